@@ -61,7 +61,7 @@ use std::{
 };
 
 use itertools::Itertools;
-use once_cell::sync::Lazy;
+use once_cell::sync::OnceCell;
 
 /// Ensure that the expected path within the root matches the current fd.
 fn check_current<RootFd: AsFd, Fd: AsFd, P: AsRef<Path>>(
@@ -136,10 +136,18 @@ fn check_current<RootFd: AsFd, Fd: AsFd, P: AsRef<Path>>(
 // program, but there's no nice way of detecting that, and the overhead of
 // checking this for every symlink lookup is more likely to be an issue.
 // MSRV(1.80): Use LazyLock.
-static PROTECTED_SYMLINKS_SYSCTL: Lazy<u32> = Lazy::new(|| {
-    utils::sysctl_read_parse(&GLOBAL_PROCFS_HANDLE, "fs.protected_symlinks")
-        .expect("should be able to parse fs.protected_symlinks")
-});
+static PROTECTED_SYMLINKS_SYSCTL: OnceCell<u32> = OnceCell::new();
+
+/// Get the (cached) value of `fs.protected_symlinks`. A failure to read the
+/// sysctl is reported to the caller (and not cached) rather than being fatal.
+fn protected_symlinks_sysctl() -> Result<u32, Error> {
+    PROTECTED_SYMLINKS_SYSCTL
+        .get_or_try_init(|| {
+            utils::sysctl_read_parse(&GLOBAL_PROCFS_HANDLE, "fs.protected_symlinks")
+                .wrap("read fs.protected_symlinks")
+        })
+        .copied()
+}
 
 /// Verify that we should follow the symlink as per `fs.protected_symlinks`.
 ///
@@ -154,7 +162,7 @@ fn may_follow_link<DirFd: AsFd, Fd: AsFd>(dir: DirFd, link: Fd) -> Result<(), Er
     const STICKY_WRITABLE: libc::mode_t = libc::S_ISVTX | libc::S_IWOTH;
 
     // We only do this if fs.protected_symlinks is enabled.
-    if *PROTECTED_SYMLINKS_SYSCTL == 0 ||
+    if protected_symlinks_sysctl()? == 0 ||
         // Allowed if owner and follower match.
         link_meta.uid() == fsuid ||
         // Allowed if the directory is not sticky and world-writable.
